@@ -129,6 +129,14 @@ def points(tier):
                         if cats and t == "bool":
                             continue
                         pts.append({"d": "D1", "type": t, "width": w, "v": v, "enc": enc, "cats": cats, "tier": tier})
+    # D7: dictionary pages x codec x page version / compressed flag (few widths)
+    for t in DICT_TYPES:
+        for w in ((1, 3, 8, 12) if tier == "thorough" else (3,)):
+            for codec in ([1, 2, 6, 7, 4] if tier == "thorough" else [1, 6]):
+                for pv in ("v1", "v2c", "v2u", "v2a"):
+                    for cats in (0, 1):
+                        pts.append({"d": "D1", "type": t, "width": w, "v": 1 if pv == "v1" else 2,
+                                    "enc": "RLE_DICTIONARY", "cats": cats, "tier": tier, "codec": codec, "pv": pv})
     cb = list(combos()) if tier == "thorough" else QUICK_COMBOS
     codecs = [0, 1, 2, 6, 7, 4] if tier == "thorough" else [0, 1, 6]
     for t in cb:
@@ -364,8 +372,10 @@ def run_D1(c, p):
                     it = iter(flat)
                     vals = [None if v is None else next(it) for v in vals]
                 col = _col("c", combo, rep)
-                chunk = {"rows": vals, "dictionary": dictionary, "codec": 0,
-                         "pages": [{"n": n, "enc": enc, "v": ver, "idx_width": w, "idx_prog": prog}]}
+                flag = {"v1": None, "v2c": True, "v2u": False, "v2a": None}[p.get("pv", "v1")]
+                chunk = {"rows": vals, "dictionary": dictionary, "codec": p.get("codec", 0),
+                         "pages": [{"n": n, "enc": enc, "v": ver, "idx_width": w, "idx_prog": prog,
+                                    "compressed": flag}]}
                 try:
                     data = W.write_file({"created_by": CREATED_BY, "columns": [col], "row_groups": [{"c": chunk}]})
                 except ValueError:
